@@ -110,9 +110,33 @@ func isTimeType(t types.Type) bool {
 	return false
 }
 
+// isAtomicInt: sync/atomic integer/boolean boxes are modelled by the value they hold
+func isAtomicInt(t types.Type) (types.Type, bool) {
+	n, ok := types.Unalias(t).(*types.Named)
+	if !ok || n.Obj().Pkg() == nil || n.Obj().Pkg().Path() != "sync/atomic" {
+		return nil, false
+	}
+	switch n.Obj().Name() {
+	case "Int32":
+		return types.Typ[types.Int32], true
+	case "Int64":
+		return types.Typ[types.Int64], true
+	case "Uint32":
+		return types.Typ[types.Uint32], true
+	case "Uint64":
+		return types.Typ[types.Uint64], true
+	case "Bool":
+		return types.Typ[types.Bool], true
+	}
+	return nil, false
+}
+
 func isOpaqueStruct(t types.Type) bool {
 	n, ok := types.Unalias(t).(*types.Named)
 	if !ok {
+		return false
+	}
+	if _, at := isAtomicInt(t); at {
 		return false
 	}
 	o := n.Obj()
@@ -159,6 +183,9 @@ func (s *SMT) sortOf(t types.Type) string {
 	}
 	if isTimeType(t) {
 		return "Int"
+	}
+	if vt, ok := isAtomicInt(t); ok {
+		return s.sortOf(vt)
 	}
 	switch u := t.Underlying().(type) {
 	case *types.Basic:
@@ -269,6 +296,9 @@ func (s *SMT) zero(t types.Type) string {
 	}
 	if isTimeType(t) {
 		return "0"
+	}
+	if vt, ok := isAtomicInt(t); ok {
+		return s.zero(vt)
 	}
 	switch u := t.Underlying().(type) {
 	case *types.Basic:
